@@ -131,6 +131,15 @@ def checkC13 (steps : List Step) : Option (Nat × String) := Id.run do
             return some (idx, s!"band_choose_hello_time: Ni={pre.ni} now={s.clock} scheduled {post.helloTs}, load formula allows no sooner than {s.clock + loadInterval pre.ni}")
         | _, _ => pure ()
       | none => pure ()
+    | ["band", "heard", a] =>
+      match parseDec a with
+      | some A =>
+        match s.band.lookup A, s'.band.lookup A with
+        | some pre, some post =>
+          if !holdsC13Heard pre post then
+            return some (idx, s!"band_on_hello_received: r {pre.r} -> {post.r} (one Hello heard must add exactly one), Ni {pre.ni} -> {post.ni}")
+        | _, _ => pure ()
+      | none => pure ()
     | ["tick", _, e, _, _] =>
       match parseDec e with
       | some E =>
